@@ -7,6 +7,7 @@
 #include <string.h>
 #include <uuid/uuid.h>
 #include <pthread.h>
+#include <sched.h>
 #include <iomanip>
 #include <memory>
 #include <sstream>
@@ -283,11 +284,11 @@ static void *thr_main(void *p) {
   ThrArg *a = static_cast<ThrArg*>(p);
   ThrShared *sh = a->sh;
   unsigned long long s = a->seed + 0x9e3779b97f4a7c15ULL * (a->id + 1);
-  while (!sh->go) {}
+  while (!sh->go) { sched_yield(); }
   unsigned long mis = 0;
   for (int phase = 0; phase < THR_PHASES; phase++) {
     __sync_fetch_and_add(&sh->arrived[phase], 1);
-    while (sh->arrived[phase] < sh->nthreads) {}
+    while (sh->arrived[phase] < sh->nthreads) { sched_yield(); }   // yield: the box may be oversubscribed
     for (unsigned i = 0; i < a->n; i++) mis += thr_phase(phase, &s);
   }
   a->mis = mis;
@@ -756,5 +757,5 @@ int main(int argc, char **argv) {
     printf("THR %lu\n", m);
     return 0;
   }
-  return vh::run(argc, argv, guarded);
+  return vh::run(argc, argv, guarded, 120);   // threaded cases need head-room on a loaded machine
 }
